@@ -6,6 +6,7 @@ import PdtVerif.Lemmas.CtcModule
 import PdtVerif.Lemmas.CtcFusion
 import PdtVerif.Lemmas.CtcNorm
 import PdtVerif.Lemmas.CtcNormArray
+import PdtVerif.Model.CtcFast
 /-!
 # C05 — CTC prefix search reports true prefix mass, never more, never NaN
 
@@ -277,6 +278,40 @@ def vmFrame : Frame :=
 
 example : outW 2 vmFrame [0] (some 0) = 3/2 := by decide +kernel
 example : ¬ vmFrame.SubStoch 2 := fun h => absurd (h.out [0] (some 0)) (by decide +kernel)
+
+/-! ### Size classes (improvement round f): true mass of a reported prefix without enumerating alignments -/
+
+/-- **C05_closed_survivors**: run the prefix-beam recursion with the SAME survivors `Q` at every frame, `Q`
+closed under taking the parent (`dropLast`).  Then every member of `Q` carries exactly its TRUE mass — the sum
+over all `(V+1)^T` alignments that collapse to it — for every vocabulary, every number of frames, every frame
+(fused or not; no sign condition), however little of the total mass `Q` holds.  This is what the driver's
+`massDP` computes for the prefixes a wide-beam / large-vocabulary case reports (`Q` = all prefixes of the
+reported prefixes): the oracle of "never more than the true mass" where `(V+1)^T` alignments cannot be
+enumerated (e.g. `18^4`, `258^3`). -/
+theorem C05_closed_survivors (V : Nat) (frames : List Frame) (Q : List (List Nat))
+    (hQ : ∀ q ∈ Q, q.dropLast ∈ Q) (q : List Nat) (hq : q ∈ Q) :
+    (beamRun V frames (List.replicate frames.length Q) beamInit).total q = mass V frames q := by
+  have hinit : ∀ q ∈ Q, beamInit.get q = exactInit q := by
+    intro q _
+    by_cases h : q = []
+    · subst h; simp [Beam.get, beamInit, exactInit]
+    · have : (q == []) = false := by simpa using h
+      simp [Beam.get, beamInit, List.lookup, this, exactInit, h]
+  have := beamRun_closed V Q hQ frames beamInit exactInit hinit q hq
+  rw [← exact_eq_mass]
+  unfold Beam.total exact
+  rw [this]
+
+/-! Non-vacuity: `Q = {[], [0], [0,1]}` (closed; 3 of the 7 prefixes two frames can produce, holding
+`1/16 + 1/2 + 1/8` of the mass) on the two-token frames of the audit; the value is the enumeration's. -/
+example : (beamRun 2 [nmFrame, nmFrame] (List.replicate 2 [[], [0], [0, 1]]) beamInit).total [0, 1]
+    = mass 2 [nmFrame, nmFrame] [0, 1] :=
+  C05_closed_survivors 2 [nmFrame, nmFrame] [[], [0], [0, 1]] (by decide) [0, 1] (by decide)
+example : mass 2 [nmFrame, nmFrame] [0, 1] = 1/8 ∧ mass 2 [nmFrame, nmFrame] [0] = 1/2 ∧
+    mass 2 [nmFrame, nmFrame] [] = 1/16 := by decide +kernel
+/-- the hypothesis matters: with the parent `[0]` missing from the survivors, `[0,1]` is left with nothing -/
+example : (beamRun 2 [nmFrame, nmFrame] (List.replicate 2 [[], [0, 1]]) beamInit).total [0, 1] = 0 := by
+  decide +kernel
 
 end PdtVerif.Ctc
 
@@ -1134,5 +1169,49 @@ example := C05_reported_total (V := 2) (by decide) 3 (by decide)
 
 example : reportedTotal (search true 2 3 2 (lmFrames 2 3 none (histLM 2 auF) [] (initState, [[]]) auIns)).1 = 13/16 := by
   decide +kernel
+
+/-! ### Size classes (improvement round f): the one-pass evaluation of the `topk` legitimacy test -/
+
+theorem all_range_getX (cand : List XR) (P : Nat → XR → Bool) :
+    (List.range cand.length).all (fun i => P i (getX cand i)) = cand.zipIdx.all (fun xi => P xi.2 xi.1) := by
+  rw [Bool.eq_iff_iff]
+  simp only [List.all_eq_true, List.mem_range]
+  constructor
+  · intro h xi hxi
+    obtain ⟨x, i⟩ := xi
+    have hx := List.mem_zipIdx_iff_getElem?.mp hxi
+    simp at hx
+    have hi : i < cand.length := by
+      rcases Nat.lt_or_ge i cand.length with h' | h'
+      · exact h'
+      · rw [List.getElem?_eq_none h'] at hx; cases hx
+    have h2 := h i hi
+    have e : getX cand i = x := by
+      unfold getX; rw [List.getD_eq_getElem?_getD, hx]; rfl
+    rw [e] at h2; exact h2
+  · intro h i hi
+    have hm : (cand[i], i) ∈ cand.zipIdx := by
+      apply List.mem_zipIdx_iff_getElem?.mpr
+      simp [hi]
+    have h2 := h _ hm
+    have e : getX cand i = cand[i] := by
+      unfold getX; simp [hi]
+    rw [e]; exact h2
+
+/-- **C05_topk_fast**: the test the driver evaluates on the candidate totals of every call
+(`isTopKFast`: one pass over the candidates, selected values read once) is the model's `isTopK` — for every
+candidate list, `K` and selection.  (`isTopK` itself is quadratic in the number of candidates `K' · (V + 1)`,
+thousands in the size classes; `C05_topk_link` etc. are about `isTopK`.) -/
+theorem C05_topk_fast (cand : List XR) (K : Nat) (sel : List Nat) :
+    isTopKFast cand K sel = isTopK cand K sel := by
+  unfold isTopKFast isTopK
+  simp only
+  congr 1
+  rw [all_range_getX cand (fun i x => sel.contains i || sel.all (fun j => XR.le x (getX cand j)))]
+  simp only [List.all_map]
+  rfl
+
+example : isTopKFast [.fin (1/2), .negInf, .fin (3/4), .fin (1/2)] 2 [2, 3] = true ∧
+    isTopKFast [.fin (1/2), .negInf, .fin (3/4), .fin (1/2)] 2 [2, 1] = false := by decide +kernel
 
 end PdtVerif.CtcPrefix
